@@ -78,6 +78,8 @@ def check_push_param(run, f, cfg):
         numbered = None
         problems = []
         for kind, c, *rest in p.conds:
+            if kind == "let":
+                continue
             if kind == "if" and H.place(c) == "self.numbered":
                 numbered = rest[0]
             elif kind == "if" and c.get("k") == "unary" and c.get("op") == "not" and H.place(c["e"]) == "self.numbered":
